@@ -75,7 +75,7 @@ def sources(db):
                     elif ev.get('i') in used:
                         kind = 'S1'
                     tgt = strip_idx(T.pstr(ev['args'][0]))
-                elif nm in ('fetch_add', 'fetch_sub', 'exchange') and 'atomic' in (ev.get('mcls') or '') and \
+                elif nm in ('fetch_add', 'fetch_sub', 'exchange') and 'atomic' in (ev.get('mcls') or '').lower() and \
                         ev.get('recv') is not None:
                     if db.T(f, ev).get('k') == 'f':
                         kind = 'S2'
@@ -370,6 +370,146 @@ def rule_union_roots(chk, db, cfgname):
     chk.count('c04.3.lambda_unions', n)
 
 
+def rule_parallel_writes(chk, db, cfgname):
+    chk.rule('C04.4', 'inside the lambda of a parallel for_each / for_each_n every non-atomic write to shared (captured by '
+             'reference / this) state goes to a slot indexed by the loop variable (an affine expression of it and of '
+             'inner constant-range loop variables), or the write site is reviewed in tables/c04.json with the reason '
+             'why concurrent iterations cannot conflict (claimed by an atomic exchange, injective index map, all '
+             'writers store the same value); a new data-indexed write is a write-write race whose winner depends on '
+             'the schedule')
+    reviewed = {(r['function'], r['target']): r for r in load_table().get('parallel_writes_reviewed', [])}
+    used = set()
+    n = 0
+    for f in db.functions.values():
+        if not f.get('blocks') or not f['file'].startswith('src/') or f['file'].endswith('parallel.h'):
+            continue
+        for b in f['blocks']:
+            for e in b['ev']:
+                if e.get('k') != 'call' or T.short(e.get('fn', '')) not in ('for_each', 'for_each_n') or \
+                        not e.get('fn', '').startswith('manifold::') or not e.get('args'):
+                    continue
+                if 'ExecutionPolicy::Seq' in T.pstr(e['args'][0]):
+                    continue
+                lams = [x for x in T.walk(e['args'][-1]) if isinstance(x, dict) and x.get('k') == 'lambda' and
+                        x.get('fk') in db.functions]
+                for lam in lams[:1]:
+                    body = db.functions[lam['fk']]
+                    params = {p['n'] for p in body['params']}
+                    locals_ = set()
+                    const_loop = set()
+                    for bb in body['blocks']:
+                        for ee in bb['ev']:
+                            if ee.get('k') == 'decl':
+                                for v in ee['vars']:
+                                    locals_.add(v['n'])
+                    # range-for variables over an initializer list {0,1,2}: constant-range inner loop variables
+                    for bb in body['blocks']:
+                        for ee in bb['ev']:
+                            if ee.get('k') == 'decl':
+                                for v in ee['vars']:
+                                    i0 = T.strip_copy(v['init']) if v.get('init') is not None else {}
+                                    if v['n'].startswith('__range') and i0.get('k') in ('ilist', 'ctor'):
+                                        const_loop.add(v['n'])
+                    inner = {v for v in locals_ if not v.startswith('__')}
+                    # locals that are affine in the loop variable (no table look-up in their initialiser)
+                    affine = set(params)
+                    grew = True
+                    while grew:
+                        grew = False
+                        for b3 in body['blocks']:
+                            for e3 in b3['ev']:
+                                if e3.get('k') == 'decl':
+                                    for v in e3['vars']:
+                                        if v['n'] in affine or v.get('init') is None:
+                                            continue
+                                        ini = v['init']
+                                        nm = {y['n'] for y in T.walk(ini) if isinstance(y, dict) and y.get('k') == 'var'}
+                                        look = any(isinstance(y, dict) and (y.get('k') == 'sub' or (
+                                            y.get('k') == 'call' and y.get('op') not in ('+', '-', '*')))
+                                            for y in T.walk(ini))
+                                        if nm & affine and not look and not (nm & (inner - affine)):
+                                            affine.add(v['n'])
+                                            grew = True
+                    for bb in body['blocks']:
+                        for ee in bb['ev']:
+                            lhs = None
+                            if ee.get('k') == 'bin' and ee.get('op', '').endswith('=') and \
+                                    ee['op'] not in ('==', '!=', '<=', '>='):
+                                lhs = ee['l']
+                            elif ee.get('k') == 'call' and ee.get('op', '').endswith('=') and \
+                                    ee['op'] not in ('==', '!=', '<=', '>=') and ee.get('recv') is not None:
+                                lhs = ee['recv']
+                            if lhs is None:
+                                continue
+                            l0 = T.strip_copy(lhs)
+                            root = T.root_of(l0)
+                            if root is None:
+                                continue
+                            rn = root.get('n') if root.get('k') == 'var' else ('this' if root.get('k') == 'this' else None)
+                            if rn is None or rn in locals_ or rn in params:
+                                continue
+                            idxs = []
+                            for y in T.walk(l0):
+                                if isinstance(y, dict) and y.get('k') == 'sub':
+                                    idxs.append(y.get('idx'))
+                                if isinstance(y, dict) and y.get('k') == 'call' and y.get('op') == '[]' and y.get('args'):
+                                    idxs.append(y['args'][0])
+
+                            def slot(ix):
+                                names = {y['n'] for y in T.walk(ix) if isinstance(y, dict) and y.get('k') == 'var'}
+                                lookups = [y for y in T.walk(ix) if isinstance(y, dict) and
+                                           (y.get('k') == 'sub' or (y.get('k') == 'call' and
+                                                                    y.get('op') not in ('+', '-', '*')))]
+                                others = names - params - {v for v in inner}
+                                # locals that are themselves data (initialised from a lookup) are not slots
+                                for nm in names & inner:
+                                    for b3 in body['blocks']:
+                                        for e3 in b3['ev']:
+                                            if e3.get('k') == 'decl':
+                                                for v in e3['vars']:
+                                                    if v['n'] == nm and v.get('init') is not None and any(
+                                                            isinstance(y, dict) and (y.get('k') == 'sub' or
+                                                                                     y.get('k') == 'call')
+                                                            for y in T.walk(v['init'])) and \
+                                                            not nm.startswith('__'):
+                                                        i0 = T.strip_copy(v['init'])
+                                                        if not (i0.get('k') == 'call' and i0.get('op') == '*'):
+                                                            return False
+                                return bool(names & affine) and not lookups
+                            if idxs and any(slot(ix) for ix in idxs):
+                                continue
+                            base = l0
+                            while base.get('k') in ('sub', 'mem') or (base.get('k') == 'call' and base.get('op') == '[]'):
+                                if base.get('k') == 'sub':
+                                    base = T.strip_copy(base['base'])
+                                elif base.get('k') == 'mem':
+                                    nxt = T.strip_copy(base['base'])
+                                    if nxt.get('k') == 'this':
+                                        break
+                                    base = nxt
+                                else:
+                                    base = T.strip_copy(base['recv'])
+                            tgt = base.get('n') or T.pstr(base)[:30]
+                            key = (root_name(f), tgt)
+                            n += 1
+                            r = reviewed.get(key)
+                            if r:
+                                used.add(key)
+                            chk.obligation(r is not None, {'function': key[0][:60], 'line': ee.get('ln'),
+                                                           'write': T.pstr(l0)[:50],
+                                                           'reviewed': r['reason'][:100] if r else 'UNREVIEWED'})
+                            if r is None:
+                                chk.violation('C04.4', f, 'data-indexed parallel write to %s' % tgt,
+                                              'the parallel loop at line %s writes %s, whose slot is chosen by data, not by '
+                                              'the loop index, without an atomic: two iterations that pick the same slot '
+                                              'race, and the surviving value depends on the schedule' %
+                                              (e.get('ln'), T.pstr(l0)[:50]), line=ee.get('ln'), cfg=cfgname)
+    for key in reviewed:
+        if key not in used:
+            raise AnalysisBroken('C04.4: reviewed parallel write %s no longer matches a site (table stale)' % list(key))
+    chk.count('c04.4.data_indexed_writes', n)
+
+
 def main(chk, tier):
     import db as D
     configs = ['par'] if tier == 'quick' else ['par', 'par-debug']
@@ -456,6 +596,7 @@ def main(chk, tier):
                 raise AnalysisBroken('C04: bad disposition %s' % d)
         rule_tasks(chk, db, cfgname)
         rule_union_roots(chk, db, cfgname)
+        rule_parallel_writes(chk, db, cfgname)
         # table entries that no longer match a source: the table is stale (not a pass)
         for key, e in entries.items():
             if key not in seen and not e.get('optional') and key[0] != 'S5':
